@@ -6,6 +6,7 @@ package zzverifw
 // arbitrary argument shapes; and property lookup / printing on every built-in object.
 
 import (
+	"strings"
 	"fmt"
 	"sort"
 
@@ -81,8 +82,22 @@ var c01Consumers = []string{"r.S", "r.repr", "r == r", "[*r]", "{**r}", "%{**r}"
 // c01Arg: a value for one argument position: a symbolic int, a symbolic float, or one of
 // the concrete shapes (solver choice).
 func c01Arg(h *H, symbolic bool) object.PanObject {
-	c := rt.Choice(len(c01Shapes) + 2)
+	c := rt.Choice(len(c01Shapes) + 4)
 	switch c {
+	case len(c01Shapes) + 2, len(c01Shapes) + 3:
+		// a range whose bounds are each nil or ANY int64 (always symbolic: built-ins that do not
+		// look at the bounds stay on one path), bare or wrapped in an array (the index form a[r])
+		bound := func() object.PanObject {
+			if rt.Bool() {
+				return object.BuiltInNil
+			}
+			return object.NewPanInt(rt.Int64())
+		}
+		r := object.NewPanRange(bound(), bound(), bound())
+		if c == len(c01Shapes)+3 {
+			return object.NewPanArr(r)
+		}
+		return r
 	case 0:
 		if symbolic {
 			return object.NewPanInt(rt.Int64())
@@ -102,6 +117,17 @@ func c01Arg(h *H, symbolic bool) object.PanObject {
 func H_C01_builtin() {
 	h := NewH()
 	fs := c01Builtins()
+	if rt.Param(3) == 2 {
+		// the indexing built-ins (a[i], a[r], s[r], n[r], r[r], o['k], m[k]): all of them in every
+		// tier (they are what `recv[index]` calls with user-written index values)
+		var at []c01Fn
+		for _, f := range fs {
+			if strings.HasSuffix(f.name, ".at") {
+				at = append(at, f)
+			}
+		}
+		fs = at
+	}
 	lo := len(fs) * rt.Param(0) / rt.Param(1)
 	hi := len(fs) * (rt.Param(0) + 1) / rt.Param(1)
 	if hi <= lo {
